@@ -156,6 +156,9 @@ func eq(a, b string) string {
 	if a == b {
 		return "true"
 	}
+	if strings.HasPrefix(a, "#x") && strings.HasPrefix(b, "#x") && len(a) == len(b) {
+		return "false" // distinct literals of the same width
+	}
 	return sx("=", a, b)
 }
 
@@ -180,17 +183,46 @@ func quoteName(n string) string {
 // Solver portfolio
 
 type Solver struct {
-	Name string
-	Args []string // command; the query file is appended
+	Name  string
+	Args  []string // command; the query file is appended
+	Delay float64  // seconds to wait before starting (second-line configurations start only if the first line has not answered)
 }
 
 var solvers = []Solver{
-	{"z3-new-5.1.0", []string{"z3-new", "-smt2", "smt.mbqi=true"}},
-	{"z3-4.8.12", []string{"z3", "-smt2", "smt.mbqi=true"}},
-	{"cvc5-1.0.3", []string{"cvc5", "--lang=smt2", "--produce-models"}},
-	// pure E-matching configurations: decide heavily quantified goals that MBQI wanders on
-	{"z3-new-5.1.0-ematch", []string{"z3-new", "-smt2", "smt.mbqi=false", "smt.auto_config=false"}},
-	{"z3-4.8.12-ematch", []string{"z3", "-smt2", "smt.mbqi=false", "smt.auto_config=false"}},
+	// first line
+	{"cvc5-1.0.3", []string{"cvc5", "--lang=smt2", "--produce-models"}, 0},
+	{"z3-new-5.1.0-ematch", []string{"z3-new", "-smt2", "smt.mbqi=false", "smt.auto_config=false"}, 0},
+	// summary variants: callee frame clauses (ensures named frame_*) are dropped, so that the callee's
+	// summary clauses (e.g. "every other list keeps its invariant") are what the proof uses
+	{"z3-new-5.1.0-ematch-noframes", []string{"z3-new", "-smt2", "smt.mbqi=false", "smt.auto_config=false"}, 0},
+	{"cvc5-1.0.3-noframes", []string{"cvc5", "--lang=smt2", "--produce-models"}, 0},
+	// hypothesis-pruned variants: every quantified assumption is dropped (sound: fewer hypotheses); they
+	// decide arithmetic / bit-vector conjuncts quickly when the quantified invariants are irrelevant
+	{"z3-new-5.1.0-noquant", []string{"z3-new", "-smt2"}, 0.5},
+	// second line: start only if the first line has not answered
+	{"z3-new-5.1.0", []string{"z3-new", "-smt2", "smt.mbqi=true"}, 4},
+	{"z3-4.8.12-ematch", []string{"z3", "-smt2", "smt.mbqi=false", "smt.auto_config=false"}, 6},
+	{"z3-4.8.12", []string{"z3", "-smt2", "smt.mbqi=true"}, 8},
+	{"cvc5-1.0.3-noquant", []string{"cvc5", "--lang=smt2", "--produce-models"}, 8},
+}
+
+// stripQuantified removes every assertion that contains a quantifier, except the negated goal (last assert).
+func stripQuantified(q string) string {
+	lines := strings.Split(q, "\n")
+	lastAssert := -1
+	for i, l := range lines {
+		if strings.HasPrefix(l, "(assert ") {
+			lastAssert = i
+		}
+	}
+	var out []string
+	for i, l := range lines {
+		if i != lastAssert && strings.HasPrefix(l, "(assert ") && (strings.Contains(l, "(forall ") || strings.Contains(l, "(exists ")) {
+			continue
+		}
+		out = append(out, l)
+	}
+	return strings.Join(out, "\n")
 }
 
 type SolveResult struct {
@@ -216,6 +248,18 @@ func solve(query string, timeout time.Duration, workdir string, tag string, want
 	for _, s := range solvers {
 		s := s
 		q := query
+		if strings.HasSuffix(s.Name, "-noquant") {
+			q = stripQuantified(query)
+			if q == query {
+				continue // nothing to prune: identical to the base configuration
+			}
+		}
+		if strings.HasSuffix(s.Name, "-noframes") {
+			q = stripFrames(query)
+			if q == query {
+				continue
+			}
+		}
 		f := base + "." + sanitizeFile(s.Name) + ".smt2"
 		if err := os.WriteFile(f, []byte(q), 0o644); err != nil {
 			return SolveResult{Status: "error", Output: err.Error()}
@@ -223,6 +267,13 @@ func solve(query string, timeout time.Duration, workdir string, tag string, want
 		wg.Add(1)
 		go func() {
 			defer wg.Done()
+			if s.Delay > 0 {
+				select {
+				case <-ctx.Done():
+					return
+				case <-time.After(time.Duration(s.Delay * float64(time.Second))):
+				}
+			}
 			cctx, ccancel := context.WithTimeout(ctx, timeout)
 			defer ccancel()
 			args := append(append([]string{}, s.Args[1:]...), f)
@@ -252,6 +303,9 @@ func solve(query string, timeout time.Duration, workdir string, tag string, want
 				st = "timeout"
 			case strings.Contains(o, "error") || strings.Contains(o, "Error"):
 				st = "error"
+			}
+			if (strings.HasSuffix(s.Name, "-noquant") || strings.HasSuffix(s.Name, "-noframes")) && st == "sat" {
+				st = "unknown" // a model of the pruned hypothesis set says nothing about the full one
 			}
 			ch <- one{s.Name, st, o, dt}
 		}()
@@ -300,4 +354,23 @@ func sanitizeFile(s string) string {
 		r = r[:150]
 	}
 	return r
+}
+
+// stripFrames removes assumptions that the query generator tagged as callee frame clauses.
+func stripFrames(q string) string {
+	lines := strings.Split(q, "\n")
+	var out []string
+	skip := false
+	for _, l := range lines {
+		if strings.HasPrefix(l, "; [frame]") {
+			skip = true
+			continue
+		}
+		if skip {
+			skip = false
+			continue
+		}
+		out = append(out, l)
+	}
+	return strings.Join(out, "\n")
 }
